@@ -13,14 +13,20 @@ import (
 	"sync"
 )
 
-func workload(seed int64) scenario {
+func workload(seed int64, udp bool) scenario {
 	rng := rand.New(rand.NewSource(seed))
 	suites := [][]int{{1, 1, 1}, {3, 4, 1}, {2, 2, 1}, {1, 4, 1}, {3, 1, 1}}
 	su := suites[rng.Intn(len(suites))]
 	pw := fmt.Sprintf("%x", []byte(fmt.Sprintf("pw-%d", seed)))
 	sc := scenario{TimeoutMs: 50}
+	if udp {
+		// over the library's real UDP transport; nothing is scripted lost, so a generous per-attempt timeout keeps
+		// scheduling delays under the race detector from turning into retransmissions
+		sc.UDP, sc.TimeoutMs = true, 5000
+	}
 	sc.BMC = scnBMC{Users: []scnUser{{Name: "admin", Password: pw, MaxPriv: 4}}, Seed: seed,
-		GUID: "00112233445566778899aabbccddeeff", Suites: [][]int{{100, su[0], su[1], su[2]}, {3, 1, 1, 1}}, LooseSeq: true}
+		// the GUID is distinct per connection, so that another BMC's bytes are visible in a result
+		GUID: fmt.Sprintf("%032x", uint64(seed)*0x9e3779b97f4a7c15+1), Suites: [][]int{{100, su[0], su[1], su[2]}, {3, 1, 1, 1}}, LooseSeq: true}
 	// some BMCs are "modern" (also offer suite 17), some are not: with the library's default preferences the
 	// proposal must depend only on this connection's BMC
 	modern := rng.Intn(2) == 0
@@ -69,6 +75,7 @@ func workload(seed int64) scenario {
 // BMC saw (its decoded view: IVs and ciphertext are random and not compared)
 func observe(sc scenario) string {
 	st := newState(&sc)
+	defer st.close()
 	var sb strings.Builder
 	for i := range sc.Steps {
 		r := runStepNoMetrics(st, &sc.Steps[i])
@@ -93,21 +100,21 @@ func observe(sc scenario) string {
 // runC19 runs the n workloads of (seed) concurrently and then once more one after the other in the same
 // process; the baseline they are compared with (each workload alone in a fresh process: c19solo) is
 // computed by the caller, so that a change which edits process-wide state cannot contaminate it.
-func runC19(n int, seed int64) string {
+func runC19(n int, seed int64, udp bool) string {
 	conc := make([]string, n)
 	var wg sync.WaitGroup
 	for i := 0; i < n; i++ {
 		wg.Add(1)
 		go func(i int) {
 			defer wg.Done()
-			conc[i] = observe(workload(seed*100 + int64(i)))
+			conc[i] = observe(workload(seed*100+int64(i), udp))
 		}(i)
 	}
 	wg.Wait()
 	after := make([]string, n)
 	steps := 0
 	for i := 0; i < n; i++ {
-		after[i] = observe(workload(seed*100 + int64(i)))
+		after[i] = observe(workload(seed*100+int64(i), udp))
 		steps += strings.Count(after[i], "\n")
 	}
 	js, _ := json.Marshal(map[string]any{"n": n, "seed": seed, "steps": steps, "concurrent": conc, "after": after})
@@ -115,9 +122,9 @@ func runC19(n int, seed int64) string {
 }
 
 func init() {
-	register("c19", func(w []string) string { return runC19(atoi(w[1]), int64(atoi(w[2]))) })
+	register("c19", func(w []string) string { return runC19(atoi(w[1]), int64(atoi(w[2])), len(w) > 3 && w[3] == "udp") })
 	register("c19solo", func(w []string) string {
-		js, _ := json.Marshal(map[string]any{"wseed": atoi(w[1]), "obs": observe(workload(int64(atoi(w[1]))))})
+		js, _ := json.Marshal(map[string]any{"wseed": atoi(w[1]), "obs": observe(workload(int64(atoi(w[1])), len(w) > 2 && w[2] == "udp"))})
 		return string(js)
 	})
 }
